@@ -17,11 +17,44 @@ theorem step_inv {s : St} (h : Inv s) (t : Tid) : Inv (step s t) := by
     · exact h
 
 /-- decidable form of `Compat` on the programs -/
-def compatB (ws : List (List WOp)) (ns : List (List NOp)) : Bool :=
+def acceptB (ws : List (List WOp)) (ns : List (List NOp)) : Bool :=
   ws.all fun p => p.all fun w => ns.all fun q => q.all fun op =>
     match op with
     | .sig (some c) k _ => c != w.cond || k.accepts w.ctx
     | _ => true
+
+/-- some wait of the program uses context `c0` -/
+def mentions (p : List WOp) (c0 : Nat) : Bool := p.any fun w => w.ctx == c0
+
+/-- some wait of the program is on condition `cd` with context `c0` -/
+def mentionsC (p : List WOp) (cd c0 : Nat) : Bool := p.any fun w => w.cond == cd && w.ctx == c0
+
+/-- a thread that waits on `cd` with context `c0` is the only thread that ever waits with context `c0` -/
+def uniqCtx (ws : List (List WOp)) (cd c0 : Nat) : Bool :=
+  (List.range ws.length).all fun i => (List.range ws.length).all fun i' =>
+    i == i' || !(mentionsC (ws.getD i []) cd c0 && mentions (ws.getD i' []) c0)
+
+/-- decidable form of `Uniq`: a `notify_one(pred)` that announces a state change has at most one thread to wake -/
+def uniqB (ws : List (List WOp)) (ns : List (List NOp)) : Bool :=
+  ns.all fun q => q.all fun op =>
+    match op with
+    | .sig (some cd) (.onec c0) _ => uniqCtx ws cd c0
+    | _ => true
+
+/-- The hypothesis of the no-lost-wake-up theorems: every state change of a condition is followed, in the same notifier
+operation, by a notification whose predicate matches the context of every wait on that condition (`acceptB`), and a
+`notify_one(pred)` used for that has at most one thread to wake (`uniqB`). -/
+def compatB (ws : List (List WOp)) (ns : List (List NOp)) : Bool := acceptB ws ns && uniqB ws ns
+
+theorem compatB_of {ws : List (List WOp)} {ns : List (List NOp)} (h1 : acceptB ws ns = true)
+    (h2 : ∀ q ∈ ns, ∀ op ∈ q, ∀ c c0 r, op ≠ NOp.sig (some c) (.onec c0) r) : compatB ws ns = true := by
+  simp only [compatB, Bool.and_eq_true]
+  refine ⟨h1, ?_⟩
+  simp only [uniqB, List.all_eq_true]
+  intro q hq op hop
+  split
+  · rename_i c c0 r; exact absurd rfl (h2 q hq _ hop c c0 r)
+  · rfl
 
 theorem pend_init (ws : List (List WOp)) (ns : List (List NOp)) (i : Nat) : pend (init ws ns) i = 0 := by
   simp only [pend, init, List.map_map]
@@ -55,7 +88,9 @@ theorem nloc_mk (p : List NOp) : NLoc (mkNotifier p) := by
     · intro e; simp only [mkNotifier] at e; rcases hc with h | h | h | h <;> rw [h] at e <;> cases e
     · intro e; simp only [mkNotifier] at e; rcases hc with h | h | h | h <;> rw [h] at e <;> cases e
 
-theorem init_inv (ws : List (List WOp)) (ns : List (List NOp)) (hc : compatB ws ns = true) : Inv (init ws ns) := by
+theorem init_inv (ws : List (List WOp)) (ns : List (List NOp)) (hc0 : compatB ws ns = true) : Inv (init ws ns) := by
+  simp only [compatB, Bool.and_eq_true] at hc0
+  obtain ⟨hc, hu⟩ := hc0
   have hS : ∀ (i : Nat) (sl : Sleeper), (init ws ns).slp[i]? = some sl → ∃ p, ws[i]? = some p ∧ sl = mkSleeper p := by
     intro i sl h
     simp only [init, List.getElem?_map, Option.map_eq_some_iff] at h
@@ -92,12 +127,39 @@ theorem init_inv (ws : List (List WOp)) (ns : List (List NOp)) (hc : compatB ws 
       | nil => simp [mkNotifier] at hop
       | cons o rest => simpa [mkNotifier] using hop
     have hw' : w ∈ p := by simpa [mkSleeper] using hw
-    simp only [compatB, List.all_eq_true] at hc
+    simp only [acceptB, List.all_eq_true] at hc
     have := hc p hpm w hw' q hqm _ hop'
     simp only [Bool.or_eq_true, bne_iff_ne, ne_eq] at this
     rcases this with h1 | h1
     · exact absurd hcw h1
     · exact h1
+  · -- uniq
+    intro j n hn cd c0 r hop a a' sa sa' ha ha' w hw w' hw' hcd hcx hcx'
+    obtain ⟨q, hq, rfl⟩ := hN j n hn
+    obtain ⟨p, hp, rfl⟩ := hS a sa ha
+    obtain ⟨p', hp', rfl⟩ := hS a' sa' ha'
+    have hqm : q ∈ ns := List.mem_of_getElem? hq
+    have hop' : NOp.sig (some cd) (.onec c0) r ∈ q := by
+      cases q with
+      | nil => simp [mkNotifier] at hop
+      | cons o rest => simpa [mkNotifier] using hop
+    simp only [uniqB, List.all_eq_true] at hu
+    have hU := hu q hqm _ hop'
+    simp only [uniqCtx, List.all_eq_true, List.mem_range] at hU
+    have hal := getElem?_lt hp
+    have hal' := getElem?_lt hp'
+    have := hU a hal a' hal'
+    have hm : mentionsC (ws.getD a []) cd c0 = true := by
+      simp only [List.getD_eq_getElem?_getD, hp, Option.getD_some, mentionsC, List.any_eq_true]
+      exact ⟨w, by simpa [mkSleeper] using hw, by simp [hcx, hcd]⟩
+    have hm' : mentions (ws.getD a' []) c0 = true := by
+      simp only [List.getD_eq_getElem?_getD, hp', Option.getD_some, mentions, List.any_eq_true]
+      exact ⟨w', by simpa [mkSleeper] using hw', by simp [hcx']⟩
+    simp only [List.getD_eq_getElem?_getD] at hm hm'
+    simp only [List.getD_eq_getElem?_getD, hm, hm', Bool.and_self, Bool.not_true, Bool.or_false, beq_iff_eq] at this
+    exact this
+  · -- wsv
+    intro x hx; simp [init] at hx
 
 /-- The invariant holds after every schedule. -/
 theorem reach_inv (ws : List (List WOp)) (ns : List (List NOp)) (hc : compatB ws ns = true) (sched : List Tid) :
